@@ -81,6 +81,14 @@ CLAIMED = {
         "Trusted: z3 LIA, the Jinja/Python AST condition translators (untranslatable conditions are left unconstrained = link may be emitted).",
         "DESIGN.md §5 C09",
     ),
+    "C15": (
+        "symbolic execution of the real settings pipeline (meta_preprocessor, convert_setting, ProjectSettings, parse_arguments) with finite-choice value forms and presence flags, decided by z3",
+        "For one option of each type of the settings schema: every markdown-metadata form and the TOML-native form give the same effective value; "
+        "for every combination of presence in the project file / --config / command line the effective value follows command line > --config > "
+        "file > default; ill-typed values are rejected with a message naming the option.",
+        "Trusted: z3, CV evaluator; tomllib (evaluated per choice), argparse not exercised.",
+        "DESIGN.md §5 C15",
+    ),
     "C13": (
         "symbolic execution of the real graph hop expansion on stand-in nodes with symbolic relation and symbolic unbounded limits, decided by z3",
         "For every relation over up to 3 (thorough: 4) nodes (edge presence symbolic; cycles, self loops, diamonds, disconnected parts) and symbolic "
